@@ -23,6 +23,7 @@ extern "C" {
     fn dup(fd: i32) -> i32;
     fn dup2(old: i32, new: i32) -> i32;
     fn close(fd: i32) -> i32;
+    fn fcntl(fd: i32, cmd: i32, arg: i32) -> i32;
 }
 
 /// While alive, file descriptor 1 points at /dev/null: instruction bodies that `println!` (GRAPH.EDGE*HISTORY)
@@ -34,6 +35,8 @@ impl Silence {
         use std::os::unix::io::AsRawFd;
         let _ = std::io::stdout().flush();
         let saved = unsafe { dup(1) };
+        // the saved descriptor must not leak into a process EXEC.CMD starts (it would keep the result pipe open)
+        if saved >= 0 { unsafe { fcntl(saved, 2 /* F_SETFD */, 1 /* FD_CLOEXEC */); } }
         if let Ok(f) = std::fs::OpenOptions::new().write(true).open("/dev/null") {
             unsafe { dup2(f.as_raw_fd(), 1); }
         }
